@@ -78,6 +78,9 @@ def tunnelDnsInput (c : Cli) (inp : CInput) : Cli × List CEvent × Stop :=
     | .rawans b => tunnelDnsRaw c b
     | _ => tunnelDnsRaw c []
 
+/-- events that happened before a handler ran -/
+def after (evs : List CEvent) (r : CState × List CEvent × Next) : CState × List CEvent × Next := (r.1, evs ++ r.2.1, r.2.2)
+
 /-- one turn of `client_tunnel`'s loop, from the return of `select` to the next `select` -/
 def tunnelStep (c : Cli) (inp : CInput) : CState × List CEvent × Next :=
   let f := fire c (selectOf c) inp
@@ -86,8 +89,8 @@ def tunnelStep (c : Cli) (inp : CInput) : CState × List CEvent × Next :=
   else
     match f.2 with
     | .timeout => settle (timeoutBranch c)
-    | .tun frame => settle (tunnelTun c frame)
-    | .dns inp => settle (tunnelDnsInput c inp)
+    | .tun frame => let k := rawKeepalive c; after k.2 (settle (tunnelTun k.1 frame))
+    | .dns inp => let k := rawKeepalive c; after k.2 (settle (tunnelDnsInput k.1 inp))
 
 /-- `handshake_lazyoff` is over: back through `send_query` and the sender into the interrupted function (`k`),
 then to the top of `client_tunnel`'s loop -/
